@@ -9,9 +9,12 @@ EXTENDS Integers, Sequences, TLC, Json, IOUtils
 Trace == ndJsonDeserialize(IOEnv.IN_FILE)
 Laws == {"PM(PM(x,a),b)=PM(x,a+b)", "MZM-power-2Vpi-periodic", "MZM-noise-modulated-like-signal", "PM-noise-rotated-like-signal",
          "drive-kinds-agree-MZM", "drive-kinds-agree-PM", "PM-phase-is-pi*u/Vpi", "MZM-transfer-at-lattice-power", "LASER-|E|^2=P", "PM-total-power-unchanged", "MZM(BW)=BPF(MZM)"}
+\* phase excursions of 1e-9 .. 1e-5 rad measured through angle(): rounding of the field (1e-16) limits the relative accuracy to about 1e-6
+SmallPhaseLaws == {"PM-small-drive-phase"}
 Bounds == {"MZM-passive-per-sample", "MZM-unselected-polarisation-extinguished"}
 Clauses(e) ==
-  CASE e.kind = "law" -> IF e.name \notin Laws THEN {"unknown-law"} ELSE IF e.ppt > 1000000 THEN {e.name} ELSE {}      \* 1e-6 relative
+  CASE e.kind = "law" -> IF e.name \in SmallPhaseLaws THEN (IF e.ppt > 100000000 THEN {e.name} ELSE {})                     \* 1e-4 relative
+                         ELSE IF e.name \notin Laws THEN {"unknown-law"} ELSE IF e.ppt > 1000000 THEN {e.name} ELSE {}      \* 1e-6 relative
     [] e.kind = "bound" -> IF e.name \notin Bounds THEN {"unknown-bound"} ELSE IF e.ppb > 1000 THEN {e.name} ELSE {}
     [] e.kind = "ratio" -> IF e.measured - e.erdB > 5 \/ e.erdB - e.measured > 5 THEN {"on-off-ratio-is-ER"} ELSE {}   \* 0.005 dB
     [] e.kind = "peak" -> IF e.idx # e.expected THEN {"LASER-spectral-peak-at-df"} ELSE {}
